@@ -1,5 +1,6 @@
 """C02 — every execution engine implements the defined semantics (reference = Lean `Sem`)."""
 import os
+import subprocess
 import random
 import tempfile
 
@@ -43,6 +44,142 @@ def families(ctx, quick):
     return [f for f in fams if f[2]]
 
 
+# ---- trust report: what `nanoc --trust-report` calls "verified" -------------------------------------------------------------
+
+I64 = 1 << 64
+
+
+def nc_eval(e, env, core):
+    """value of a gen_expr tree; core=True: NanoCore as formal/Semantics.v defines it (unbounded Z, Z.div / Z.modulo, i.e.
+    floor semantics, division by zero stuck = None); core=False: the language definition (64-bit wrapping, C truncation)"""
+    k = e[0]
+    if k == "num":
+        return e[1]
+    if k == "bool":
+        return e[1]
+    if k == "var":
+        return env[e[1]]
+    if k == "un":
+        v = nc_eval(e[2], env, core)
+        if v is None:
+            return None
+        return (not v) if e[1] == "not" else wrap(-v, core)
+    a = nc_eval(e[2], env, core)
+    if a is None:
+        return None
+    op = e[1]
+    if op == "and":
+        return nc_eval(e[3], env, core) if a else False
+    if op == "or":
+        return True if a else nc_eval(e[3], env, core)
+    b = nc_eval(e[3], env, core)
+    if b is None:
+        return None
+    if op in ("/", "%"):
+        if b == 0:
+            return None
+        if core:
+            return a // b if op == "/" else a % b
+        q = abs(a) // abs(b) * (1 if (a >= 0) == (b >= 0) else -1)
+        return wrap(q, core) if op == "/" else wrap(a - q * b, core)
+    if op in ("+", "-", "*"):
+        return wrap({"+": a + b, "-": a - b, "*": a * b}[op], core)
+    return {"==": a == b, "!=": a != b, "<": a < b, "<=": a <= b, ">": a > b, ">=": a >= b}[op]
+
+
+def wrap(v, core):
+    if core:
+        return v
+    v &= I64 - 1
+    return v - I64 if v >= I64 >> 1 else v
+
+
+def trust_program(rng, k):
+    """functions over (a, b, c: int, p, q: bool) whose bodies are one expression of the NanoCore operator fragment, plus one
+    function of each kind that must NOT be labelled verified; main prints every core function at three argument tuples"""
+    from .. import gen_expr
+    funcs, L = [], []
+    L.append("extern fn labs(x: int) -> int")
+
+    def small(ty, depth):
+        e = gen_expr.gen(rng, ty, depth)
+        def ok(t):
+            if t[0] in ("call", "field", "tidx"):
+                return False
+            if t[0] == "num" and abs(t[1]) > 1000:
+                return False
+            return all(ok(x) for x in t[2:] if isinstance(x, tuple)) if t[0] in ("un", "bin") else True
+        return e if ok(e) else None
+    n = 0
+    while n < k:
+        ty = rng.choice(["int", "int", "bool"])
+        e = small(ty, rng.choice([2, 3, 4]))
+        if e is None:
+            continue
+        nm = "t%d" % n
+        L.append("fn %s(a: int, b: int, c: int, n: int, p: bool, q: bool) -> %s {\n    return %s\n}\nshadow %s { assert (== 1 1) }" % (nm, ty, gen_expr.prefix(e), nm))
+        funcs.append((nm, ty, e))
+        n += 1
+    noncore = {
+        "uses_float": "fn uses_float(x: float) -> float {\n    return (+ x 1.5)\n}\nshadow uses_float { assert (== 1 1) }",
+        "uses_for": "fn uses_for(m: int) -> int {\n    let mut s: int = 0\n    for i in (range 0 m) {\n        set s (+ s i)\n    }\n    return s\n}\nshadow uses_for { assert (== (uses_for 3) 3) }",
+        "uses_extern": "fn uses_extern(x: int) -> int {\n    let mut r: int = 0\n    unsafe { set r (labs x) }\n    return r\n}\nshadow uses_extern { assert (== 1 1) }",
+        "uses_unsafe": "fn uses_unsafe(x: int) -> int {\n    let mut r: int = x\n    unsafe { set r (+ r 1) }\n    return r\n}\nshadow uses_unsafe { assert (== (uses_unsafe 1) 2) }",
+        "uses_float_let": "fn uses_float_let(x: int) -> int {\n    let f: float = 2.5\n    if (> f 1.0) { return x } else { return 0 }\n}\nshadow uses_float_let { assert (== (uses_float_let 4) 4) }",
+    }
+    L += list(noncore.values())
+    tuples = [dict(a=17, b=-5, c=3, n=7, p=True, q=False), dict(a=-7, b=2, c=-3, n=1, p=False, q=True), dict(a=0, b=9, c=1, n=-2, p=True, q=True)]
+    body = []
+    for nm, ty, e in funcs:
+        for t in tuples:
+            body.append("    (println (%s %d %d %d %d %s %s))" % (nm, t["a"], t["b"], t["c"], t["n"], "true" if t["p"] else "false", "true" if t["q"] else "false"))
+    L.append("fn main() -> int {\n" + "\n".join(body) + "\n    return 0\n}\nshadow main { assert (== 1 1) }")
+    return "\n".join(L) + "\n", funcs, list(noncore), tuples
+
+
+def trust_family(ctx, tdir, td, quick):
+    """labels of the trust report against the definition of the NanoCore subset, and the values of 'verified' functions
+    against the NanoCore semantics"""
+    import re
+    fails, known_div = [], None
+    rng = ctx.rng
+    for k in range(2 if quick else 12):
+        text, funcs, noncore, tuples = trust_program(rng, 10 if quick else 25)
+        p = os.path.join(td, "trust%d.nano" % k)
+        open(p, "w").write(text)
+        ctx.case(text)
+        r = subprocess.run([os.path.join(tdir, "bin", "nanoc_c"), p, "--trust-report"], cwd=tdir, stdout=subprocess.PIPE, stderr=subprocess.PIPE, timeout=120)
+        rep = r.stdout.decode(errors="replace")
+        labels = dict(re.findall(r"^\s*(\w+)\(.*?\[\s*(\w+)\s*\]", rep, re.M))
+        if not labels:
+            fails.append({"why": "nanoc --trust-report prints no labels", "stdout": rep[-300:], "stderr": r.stderr.decode(errors="replace")[-300:], "source": text})
+            continue
+        for nm in noncore:
+            if labels.get(nm) == "verified":
+                fails.append({"why": "function %s is outside the NanoCore subset (%s) but the trust report labels it 'verified, proven sound'" % (nm, nm.replace("uses_", "uses ")),
+                              "report": rep[-1500:], "source": text})
+        v = subprocess.run([os.path.join(tdir, "bin", "nano_virt"), p, "--run"], cwd=tdir, stdout=subprocess.PIPE, stderr=subprocess.PIPE, timeout=60)
+        out = v.stdout.decode(errors="replace").split("\n")
+        i = 0
+        for nm, ty, e in funcs:
+            for t in tuples:
+                got = out[i] if i < len(out) else None
+                i += 1
+                if labels.get(nm) != "verified":
+                    ctx.count("trust_core_function_not_labelled_verified")
+                    continue
+                core, lang_v = nc_eval(e, t, True), nc_eval(e, t, False)
+                show = lambda x: None if x is None else ("true" if x is True else "false" if x is False else str(x))
+                ctx.count("trust_verified_values_compared")
+                if lang_v is None:
+                    continue          # division by zero somewhere: the engines' behaviour there is the subject of the other families
+                if got != show(lang_v):
+                    fails.append({"why": "a function labelled verified computes %r on the VM; the language definition gives %s" % (got, show(lang_v)), "function": nm, "args": t, "source": text})
+                elif show(core) != show(lang_v):
+                    known_div = known_div or (nm, t, show(lang_v), show(core), text)
+    return fails, known_div
+
+
 def run(ctx):
     info = common.prove(ctx, MODULE, ["front", "isa", "nvm"])
     quick = ctx.tier == "quick"
@@ -62,6 +199,7 @@ def run(ctx):
         nat_jobs = [(tdir, p) for p, f in zip(paths, fams) if "native" in f[2]]
         vm_res = dict(zip([j[1] for j in vm_jobs], lang.parallel(lang.run_vm, vm_jobs)))
         nat_res = dict(zip([j[1] for j in nat_jobs], lang.parallel(lang.run_native, nat_jobs)))
+        trust_fails, trust_known = trust_family(ctx, tdir, td, quick)
     cnt = {"vm_ok": 0, "native_ok": 0, "skipped_by_reference": 0, "native_compile_failed": 0}
     for (name, text, engines), p, sv, sn in zip(fams, paths, sem_vm, sem_nat):
         ctx.case(text)
@@ -93,6 +231,13 @@ def run(ctx):
                 oracle_fail.append({"family": name, "engine": eng, "why": "engine differs from the reference semantics: " + why,
                                     "engine_stdout_tail": res["out"][-200:].decode(errors="replace"), "reference_stdout_tail": sem["out"][-200:].decode(errors="replace"),
                                     "engine_stderr": res["err"], "source": text})
+    oracle_fail = [dict(f, family="trust-report") for f in trust_fails] + oracle_fail
+    if trust_known:
+        nm, t, lv, cv, text = trust_known
+        if ctx.findings.get("F-C02-6", {}).get("status") == "known":
+            ctx.known("F-C02-6", "a function the trust report labels 'verified' computes %s where formal/Semantics.v (Z.div / Z.modulo, unbounded Z) assigns %s: the engines truncate and wrap, the Coq model floors and does not wrap" % (lv, cv))
+        else:
+            oracle_fail.insert(0, {"family": "trust-report", "why": "a function labelled verified computes %s, formal/Semantics.v assigns %s" % (lv, cv), "function": nm, "args": t, "source": text})
     ctx.cov.update(cnt)
     ctx.cov["programs"] = len(fams)
     ctx.cov["boundary_values"] = len(lang.BOUNDARY)
@@ -103,7 +248,8 @@ def run(ctx):
     ctx.cov["rule"] = ("each program is run by nano_virt --run and (a subset) compiled by nanoc and run; stdout bytes and exit status must equal what the Lean reference "
                        "semantics (sem command, vm / native configuration) computes from the same source text; families: 11 binary operators x ordered pairs of 26 boundary "
                        "values, as literals and through a function call; unary operators, abs/min/max; and/or with every shape of left operand and a printing or partial right "
-                       "operand; block shadowing, loop variables, continue/break, globals, recursion; int->string at the widest values; type-directed random programs")
+                       "operand; block shadowing, loop variables, continue/break, globals, recursion; int->string at the widest values; type-directed random programs; trust report: functions outside the NanoCore subset (float, for, extern, unsafe) must not be labelled verified, "
+                       "values of verified one-expression functions against formal/Semantics.v and the language definition")
     for f in oracle_fail[:3]:
         ctx.violation({"kind": "oracle", "detail": f})
     if not oracle_fail and not info["ok"]:
